@@ -292,7 +292,7 @@ func C20(tier string) {
 	if tier == "thorough" {
 		nProgs, optN = 12, len(optionSets)
 	}
-	links := gen.AllLinks(nil, []string{"conc"})
+	links := gen.AllLinks(nil, []string{"conc", "guard"})
 	r := core.NewRNG(run.SeedV, "c20-"+tier)
 	var batches []*gen.Batch
 	for p := 0; p < nProgs; p++ {
